@@ -12,40 +12,47 @@ Open Scope Z_scope.
 Definition CRLF : bytes := [13; 10].
 
 (* a header line as a sender may write it: optional white space (SP / HTAB) around the colon *)
-Record hline := { hl_name : bytes; hl_pre : bytes; hl_post : bytes; hl_value : bytes }.
+(* line end of a start line / header line / trailer line: CRLF or bare LF, chosen per line *)
+Inductive leol := LCrLf | LLf.
+Definition eol_b (e : leol) : bytes := match e with LCrLf => [13; 10] | LLf => [10] end.
+
+Record hline := { hl_name : bytes; hl_pre : bytes; hl_post : bytes; hl_value : bytes; hl_end : leol }.
 
 Definition render_hline (h : hline) : bytes :=
-  hl_name h ++ hl_pre h ++ [58] ++ hl_post h ++ hl_value h ++ CRLF.
+  hl_name h ++ hl_pre h ++ [58] ++ hl_post h ++ hl_value h ++ eol_b (hl_end h).
 
 Definition render_hlines (hs : list hline) : bytes := flat_map render_hline hs.
 
 Definition is_sp (c : Z) : bool := (c =? 32) || (c =? 9).
 Definition no_crlf (b : bytes) : bool := forallb (fun c => negb (c =? 13) && negb (c =? 10)) b.
 
-(* name: non empty, no colon / CR / LF / white space, already lower case;
+(* name: non empty, no colon / CR / LF / white space, ANY letter case (the map key is its lower case);
    value: no CR / LF, no white space at either end; padding: SP / HTAB only *)
 Definition name_ok (n : bytes) : bool :=
-  negb (is_nil n) && forallb (fun c => negb (c =? 58) && negb (is_ws_u c) && (lower_c c =? c)) n.
+  negb (is_nil n) && forallb (fun c => negb (c =? 58) && negb (is_ws_u c)) n.
 Definition value_ok (v : bytes) : bool :=
   no_crlf v && beq (strip is_ws_u v) v.
 Definition hline_ok (h : hline) : bool :=
   name_ok (hl_name h) && value_ok (hl_value h) && forallb is_sp (hl_pre h) && forallb is_sp (hl_post h).
 
 (* header map of a list of header lines with pairwise different names *)
-Definition hmap (hs : list hline) : hdrs := map (fun h => (hl_name h, hl_value h)) hs.
+Definition hmap (hs : list hline) : hdrs := map (fun h => (lower (hl_name h), hl_value h)) hs.
 
 (* header map of a header block: lodict semantics (a repeated name overwrites, keeps its place) *)
 Definition hdrs_of (lines : list hline) : hdrs :=
-  fold_left (fun acc l => aset (hl_name l) (hl_value l) acc) lines [].
+  fold_left (fun acc l => aset (lower (hl_name l)) (hl_value l) acc) lines [].
 
 (* tokens: non empty, no white space (so no CR / LF either) *)
 Definition no_ws (ws : Z -> bool) (b : bytes) : bool := forallb (fun c => negb (ws c)) b.
 Definition tok_ok (t : bytes) : bool := negb (is_nil t) && no_ws is_ws_u t.
 
-(* numerals: digit values -> characters 0-9 a-f; value of a digit list *)
-Definition dchar (d : Z) : Z := if d <? 10 then 48 + d else 87 + d.
-Definition dval (base : Z) (ds : list Z) (acc : Z) : Z := fold_left (fun a d => a * base + d) ds acc.
-Definition digits_ok (base : Z) (ds : list Z) : bool := forallb (fun d => (0 <=? d) && (d <? base)) ds.
+(* numerals as lists of digit codes: 0..9 -> '0'..'9', 10..15 -> 'a'..'f', 16..21 -> 'A'..'F'
+   (the upper-case hex digits; only with base 16).  dv = the digit's value. *)
+Definition dchar (d : Z) : Z := if d <? 10 then 48 + d else if d <? 16 then 87 + d else 49 + d.
+Definition dv (d : Z) : Z := if d <? 16 then d else d - 6.
+Definition dval (base : Z) (ds : list Z) (acc : Z) : Z := fold_left (fun a d => a * base + dv d) ds acc.
+Definition dbound (base : Z) : Z := if base =? 16 then 22 else base.
+Definition digits_ok (base : Z) (ds : list Z) : bool := forallb (fun d => (0 <=? d) && (d <? dbound base)) ds.
 Definition num (ds : list Z) : bytes := map dchar ds.
 
 (* ---- serialisation ---- *)
@@ -58,8 +65,9 @@ Definition request_line (method url : bytes) (v11 : bool) : bytes :=
 Definition status_line (v11 : bool) (status_digits : list Z) (reason : list bytes) : bytes :=
   join_with [32] (version_str v11 :: num status_digits :: reason).
 
-Definition head_bytes (start : bytes) (lines : list hline) : bytes :=
-  start ++ CRLF ++ render_hlines lines ++ CRLF.
+(* e0: line end of the start line, e1: of the empty line that ends the header block *)
+Definition head_bytes (start : bytes) (e0 : leol) (lines : list hline) (e1 : leol) : bytes :=
+  start ++ eol_b e0 ++ render_hlines lines ++ eol_b e1.
 
 (* chunk extensions  ;name  |  ;name=value  *)
 Definition ext := (bytes * option bytes)%type.
@@ -81,8 +89,9 @@ Definition ch_exts (c : chunk) := snd (fst c).
 Definition ch_data (c : chunk) := snd c.
 Definition size_line (ds : list Z) (es : list ext) : bytes := num ds ++ render_exts es.
 Definition chunk_bytes (c : chunk) : bytes := size_line (ch_size c) (ch_exts c) ++ CRLF ++ ch_data c ++ CRLF.
-Definition chunked_bytes (chunks : list chunk) (zeros : list Z) (lastexts : list ext) (trailers : list hline) : bytes :=
-  flat_map chunk_bytes chunks ++ size_line zeros lastexts ++ CRLF ++ render_hlines trailers ++ CRLF.
+Definition chunked_bytes (chunks : list chunk) (zeros : list Z) (lastexts : list ext) (trailers : list hline)
+           (e1 : leol) : bytes :=
+  flat_map chunk_bytes chunks ++ size_line zeros lastexts ++ CRLF ++ render_hlines trailers ++ eol_b e1.
 (* .parms after all chunks: update with each chunk's extensions in order *)
 Definition parms_of (chunks : list chunk) (lastexts : list ext) (p0 : parms) : parms :=
   aupdate (fold_left (fun acc c => aupdate acc (exts_map (ch_exts c))) chunks p0) (exts_map lastexts).
